@@ -379,14 +379,37 @@ def _collection_elements(fn: ast.AST, coll: ast.AST):
             return None
         apps = [c for c in au.calls_in(fn) if isinstance(c.func, ast.Attribute) and c.func.attr == "append" and isinstance(c.func.value, ast.Name) and c.func.value.id == coll.id and len(c.args) == 1]
         others = [n for n in au.walk_no_nested(fn) if isinstance(n, ast.Attribute) and isinstance(n.value, ast.Name) and n.value.id == coll.id and n.attr not in ("append",)]
-        if len(apps) != 1 or others:
+        if not apps or others:
             return None
-        loop = shared.enclosing(fn, apps[0], (ast.For,))
+        loops = {id(shared.enclosing(fn, a, (ast.For,))): shared.enclosing(fn, a, (ast.For,)) for a in apps}
+        if len(loops) != 1:
+            return None
+        loop = next(iter(loops.values()))
         if loop is None or loop.orelse or shared.enclosing(fn, loop, (ast.For, ast.While)) is not None:
             return None
         outer = len(shared.path_conditions(fn, loop))
-        inner = shared.path_conditions(fn, apps[0])[outer:]
-        plain = not inner and not any(isinstance(n, (ast.Break, ast.Continue, ast.Return)) for n in ast.walk(loop))
-        alts = shared.alternatives(fn, apps[0].args[0], list(inner), at=apps[0])
-        return ([(v, shared.resolved_conditions(fn, c)) for v, c in alts], loop.iter, plain)
+
+        def count(block):
+            """appends per pass through the block: an int when it is the same on every path, else None"""
+            tot = 0
+            for st in block:
+                if isinstance(st, ast.If):
+                    a, b = count(st.body), count(st.orelse)
+                    if a is None or b is None or a != b:
+                        return None
+                    tot += a
+                elif isinstance(st, (ast.For, ast.While, ast.Try, ast.With)):
+                    if any(x in apps for x in ast.walk(st)):
+                        return None
+                else:
+                    tot += sum(1 for x in ast.walk(st) if any(x is a for a in apps))
+            return tot
+
+        plain = count(loop.body) == 1 and not any(isinstance(n, (ast.Break, ast.Continue, ast.Return)) for n in ast.walk(loop))
+        elts = []
+        for a in apps:
+            inner = shared.path_conditions(fn, a)[outer:]
+            for v, c in shared.alternatives(fn, a.args[0], list(inner), at=a):
+                elts.append((v, shared.resolved_conditions(fn, c)))
+        return (elts, loop.iter, plain)
     return None
